@@ -108,7 +108,7 @@ struct PktGen {
         if (ty == ICMPv6::NEIGHBOUR_SOLICIT || ty == ICMPv6::NEIGHBOUR_ADVERT || ty == ICMPv6::REDIRECT) c->target_addr(ip6());
         if (ty == ICMPv6::REDIRECT) c->dest_addr(ip6());
         if (ty == ICMPv6::ROUTER_ADVERT) { c->hop_limit(r.byte()); c->router_lifetime((u16)r.next()); c->reachable_time((u32)r.next()); c->retransmit_timer((u32)r.next()); }
-        if (ty == ICMPv6::MLD2_REPORT) { ICMPv6::multicast_address_records_list l; for (u32 i = r.below(3); i--;) { ICMPv6::multicast_address_record m; m.type = (u8)(1 + r.below(6)); m.multicast_address = ip6(); for (u32 k = r.below(3); k--;) m.sources.push_back(ip6()); m.aux_data = r.bytes(4 * r.below(3)); l.push_back(m); } c->multicast_address_records(l); }
+        if (ty == ICMPv6::MLD2_REPORT) { ICMPv6::multicast_address_records_list l; for (u32 i = r.below(3); i--;) { ICMPv6::multicast_address_record m; m.type = (u8)(1 + r.below(6)); m.multicast_address = ip6(); for (u32 k = r.below(3); k--;) m.sources.push_back(ip6()); m.aux_data = r.bytes(4 * r.below(3));   /* whole words only: the wire length field counts 32-bit words (see c02 for ragged lengths) */ l.push_back(m); } c->multicast_address_records(l); }
         if (ty == ICMPv6::MGM_QUERY) { c->multicast_addr(ip6()); c->maximum_response_code((u16)r.next()); c->qrv((u8)r.below(8)); c->qqic(r.byte()); }
         bool nd = (ty >= ICMPv6::ROUTER_SOLICIT && ty <= ICMPv6::REDIRECT);
         u32 n = nd ? r.below(4) : 0;
